@@ -15,14 +15,7 @@
 //            live element objects and the outstanding blocks unchanged; a constructor that threw left nothing
 //       C10: Insert*/Remove* that threw left count <= capacity, every slot below count a live or moved-from object
 //            (canary), live objects == sum of counts, outstanding blocks == blocks owned by the containers
-#include "momo/Array.h"
-#include "common/verif_common.h"
-
-#include <memory>
-#include <algorithm>
-#include <deque>
-#include <stdexcept>
-#include <new>
+#include "c04_arrfault.h"
 
 #ifndef AF_PART
 # define AF_PART 0
@@ -32,149 +25,7 @@ using namespace vf;
 
 namespace af {
 
-// ------------------------------------------------------------------ fault points
-struct FP { long countdown = -1; bool fired = false; long points = 0; };
-static FP& fp() { static FP f; return f; }
-struct ElemFault : public std::runtime_error { ElemFault() : std::runtime_error("element") {} };
-// true = this step has to throw
-static bool pointFires() {
-	FP& f = fp();
-	++f.points;
-	if (f.countdown == 0) { f.countdown = -1; f.fired = true; return true; }
-	if (f.countdown > 0) --f.countdown;
-	return false;
-}
-static void point() { if (pointFires()) throw ElemFault(); }
-
-// ------------------------------------------------------------------ memory manager: ledger + log + faults
-struct MMWorld {
-	std::map<void*, std::pair<size_t, size_t>> live;	// block -> (size the container knows, bytes really allocated)
-	std::vector<std::string> ev;
-	size_t badDealloc = 0;
-	bool oracle = false;
-};
-static MMWorld& mw() { static MMWorld w; return w; }
-static const size_t slack = 1 << 16;
-
-template<bool tInplace>
-class MMBase
-{
-public:
-	explicit MMBase() noexcept {}
-	MMBase(MMBase&&) noexcept {}
-	MMBase(const MMBase&) noexcept {}
-	~MMBase() = default;
-	MMBase& operator=(const MMBase&) = delete;
-	void* Allocate(size_t size)
-	{
-		if (pointFires()) { mw().ev.push_back(fmt("A%zu", size)); throw std::bad_alloc(); }
-		size_t real = size + (tInplace ? slack : 0);
-		void* p = std::malloc(real);
-		if (p == nullptr) throw std::bad_alloc();
-		mw().live[p] = std::make_pair(size, real);
-		mw().ev.push_back(fmt("a%zu", size));
-		return p;
-	}
-	void Deallocate(void* ptr, size_t size) noexcept
-	{
-		mw().ev.push_back(fmt("d%zu", size));
-		auto it = mw().live.find(ptr);
-		if (it == mw().live.end() || it->second.first != size) { ++mw().badDealloc; return; }
-		mw().live.erase(it);
-		std::free(ptr);
-	}
-protected:
-	void* doReallocate(void* ptr, size_t size, size_t newSize)
-	{
-		if (pointFires()) { mw().ev.push_back(fmt("R%zu:%zu", size, newSize)); throw std::bad_alloc(); }
-		auto it = mw().live.find(ptr);
-		if (it == mw().live.end() || it->second.first != size) ++mw().badDealloc; else mw().live.erase(it);
-		size_t real = newSize + (tInplace ? slack : 0);
-		void* p = std::realloc(ptr, real);
-		if (p == nullptr) throw std::bad_alloc();
-		mw().live[p] = std::make_pair(newSize, real);
-		mw().ev.push_back(fmt("r%zu:%zu", size, newSize));
-		return p;
-	}
-	bool doInplace(void* ptr, size_t size, size_t newSize) noexcept
-	{
-		auto it = mw().live.find(ptr);
-		bool known = it != mw().live.end() && it->second.first == size;
-		bool ok = mw().oracle && known && newSize <= it->second.second;
-		mw().ev.push_back(fmt("i%zu:%zu:%d", size, newSize, ok ? 1 : 0));
-		if (ok) it->second.first = newSize;
-		return ok;
-	}
-};
-template<bool tRealloc, bool tInplace> class MM;
-template<> class MM<false, false> : public MMBase<false> {};
-template<> class MM<true, false> : public MMBase<false> {
-public: void* Reallocate(void* p, size_t s, size_t n) { return doReallocate(p, s, n); }
-};
-template<> class MM<false, true> : public MMBase<true> {
-public: bool ReallocateInplace(void* p, size_t s, size_t n) noexcept { return doInplace(p, s, n); }
-};
-template<> class MM<true, true> : public MMBase<true> {
-public:
-	void* Reallocate(void* p, size_t s, size_t n) { return doReallocate(p, s, n); }
-	bool ReallocateInplace(void* p, size_t s, size_t n) noexcept { return doInplace(p, s, n); }
-};
-
-// ------------------------------------------------------------------ element types
-static const uint32_t LIVE = 0xA11CE, MOVED = 0x30FED, DEAD = 0xDEAD;
-static long& liveObjs() { static long n = 0; return n; }
-
-// trivially copyable: relocation by memcpy / Reallocate, nothing throws, a move is a copy
-struct Tr { uint32_t id; uint32_t state; uint32_t pad[2]; };
-
-// nothrow-move-constructible; the copy constructor throws at a fault point BEFORE anything is built; tAT: copy and
-// move assignment throw at a fault point before they change anything; a move marks its source, a self-move-assignment
-// is destructive (what std::string does)
-template<bool tAT>
-struct ElM
-{
-	uint32_t id; uint32_t state;
-	explicit ElM(uint32_t i) : id(i), state(LIVE) { ++liveObjs(); }
-	ElM(const ElM& o) : id((point(), o.id)), state(o.state) { ++liveObjs(); }
-	ElM(ElM&& o) noexcept : id(o.id), state(o.state) { o.state = MOVED; ++liveObjs(); }
-	ElM& operator=(const ElM& o) noexcept(!tAT) { if (tAT) point(); id = o.id; state = o.state; return *this; }
-	ElM& operator=(ElM&& o) noexcept(!tAT)
-	{
-		if (tAT) point();
-		if (this == &o) state = MOVED; else { id = o.id; state = o.state; o.state = MOVED; }
-		return *this;
-	}
-	~ElM() { state = DEAD; --liveObjs(); }
-};
-
-// copy-only (no move operations): not nothrow relocatable; "moves" are copies that can throw
-template<bool tAT>
-struct ElC
-{
-	uint32_t id; uint32_t state;
-	explicit ElC(uint32_t i) : id(i), state(LIVE) { ++liveObjs(); }
-	ElC(const ElC& o) : id((point(), o.id)), state(o.state) { ++liveObjs(); }
-	ElC& operator=(const ElC& o) noexcept(!tAT) { if (tAT) point(); id = o.id; state = o.state; return *this; }
-	~ElC() { state = DEAD; --liveObjs(); }
-};
-
-template<typename T> struct Kind;
-template<> struct Kind<Tr> { static const bool keeps = true, tc = false, tm = false, ta = false, lo = false; static const char* name() { return "triv"; }
-	static Tr make(uint32_t id) { Tr t; t.id = id; t.state = LIVE; t.pad[0] = id * 7; t.pad[1] = ~id; return t; } };
-template<bool tAT> struct Kind<ElM<tAT>> { static const bool keeps = false, tc = true, tm = false, ta = tAT, lo = true;
-	static const char* name() { return tAT ? "nothrowmove_throwassign" : "nothrowmove"; } static ElM<tAT> make(uint32_t id) { return ElM<tAT>(id); } };
-template<bool tAT> struct Kind<ElC<tAT>> { static const bool keeps = true, tc = true, tm = true, ta = tAT, lo = true;
-	static const char* name() { return tAT ? "copyonly_throwassign" : "copyonly"; } static ElC<tAT> make(uint32_t id) { return ElC<tAT>(id); } };
-
-template<typename T> static std::string show(const T& t) {
-	if (t.state == LIVE) return std::to_string(t.id);
-	if (t.state == MOVED) return "~";
-	return "!dead";
-}
-
 // ------------------------------------------------------------------ runner
-struct ExtGuard { long& e; explicit ExtGuard(long& e_) : e(e_) { ++e; } ~ExtGuard() { --e; } };
-struct Budget { unsigned rounds; unsigned opsPerRound; unsigned maxSize; };
 
 template<typename TC>
 class Runner
